@@ -514,7 +514,34 @@ def run(mon, spec):
         p = spec["planet"]
         eps = [jd_of_year(rng.uniform(-2000, 4000))
                for _ in range(spec["n"])]
-        eps += near_syzygy_epochs(p, rng, max(2, spec["n"] // 12))
+        nsyz = max(2, spec["n"] // 12) * (3 if p == "Mars" else 1)
+        pcls = getattr(importlib.import_module("pymeeus." + p), p)
+        from pymeeus.Epoch import Epoch as _E
+        for j in near_syzygy_epochs(p, rng, nsyz):
+            eps.append(j)
+            # ... and the hours around the alignment itself: the coarse scan
+            # stops within a step of it; it is located by a ternary search on
+            # the library's own elongation, then walked in quarter days (for
+            # an alignment close to the ecliptic the elongation passes
+            # through 0 or 180 degrees within hours)
+            step = {"Mercury": 4, "Venus": 10, "Mars": 15}.get(p, 8)
+            try:
+                f = lambda t: pcls.geocentric_position(_E(t))[2]()  # noqa
+                sign = 1.0 if f(j) > 90.0 else -1.0
+                lo, hi = j - step, j + step
+                for _k in range(14):
+                    m1, m2 = lo + (hi - lo) / 3.0, hi - (hi - lo) / 3.0
+                    if sign * f(m1) < sign * f(m2):
+                        lo = m1
+                    else:
+                        hi = m2
+                jc = 0.5 * (lo + hi)
+            except Exception:
+                continue
+            for k in range(-6, 7):
+                eps.append(jc + 0.25 * k)
+                mon.cls("hours-around-conjunction-or-opposition",
+                        (p, jc, k))
         ny = 1200 if spec.get("tier") == "thorough" else 150
         strad = origin_straddle_epochs(
             p, rng, [rng.randrange(-1990, 3990) for _ in range(ny)])
